@@ -443,6 +443,11 @@ def main_c01(run):
     acases = build_cases(run, afam + [wrap_in_fn(t, 4) for t in afam], rng, nv, fault_limit=2 if q else 5, scripts=1 if q else 3)
     run.log(f"assignment-value family: {len(afam)} programs at module and function level, {len(acases)} executions")
     decide(run, acases, nv, "c01-assign-value", explore_small=0)
+    # the comprehension forms of the statement: HyCompr's programs (clause lists of <= 2 clauses), a sample of them
+    from . import compr
+    ncompr = compr.main(run, mc=2, budget=2500 if q else 40000, finish=False)
+    run.log(f"comprehension forms (HyCompr): {ncompr} programs")
+    run.cov["comprehension_programs"] = ncompr
     tfam = temporaries_family()
     tcases = build_cases(run, tfam, rng, nv, fault_limit=0 if q else 2, scripts=2 if q else 5)
     run.log(f"temporaries family: {len(tfam)} programs, {len(tcases)} executions")
@@ -750,6 +755,14 @@ SHADOW_BINDERS = {
     "with": '(with [x (cm 5)] (setv (get R "in") x))',
     "match": '(match 5 x (setv (get R "in") x))',
     "match-as": '(match 5 _ :as x (setv (get R "in") x))',
+    "compr-setx": '(setv (get R "in") (get (lfor hyv-i [0] (setx x 5)) 0))',
+    "compr-setx-stmt": '(setv (get R "in") (get (lfor hyv-i [0] :do (setv hyv-q 0) (setx x 5)) 0))',
+    "compr-setx-if": '(setv (get R "in") (get (lfor hyv-i [0] :if (setx x 5) x) 0))',
+    "gfor-setx": '(setv (get R "in") (get (list (gfor hyv-i [0] (setx x 5))) 0))',
+    "dfor-setx": '(setv (get R "in") (get (dfor hyv-i [0] 0 (setx x 5)) 0))',
+    "compr-do-setv": '(setv (get R "in") (get (lfor hyv-i [0] :do (setv x 5) x) 0))',
+    "setv-own-itervar": '(setv (get R "in") (get (lfor x [4] :do (setv x 5) x) 0))',
+    "setx-own-itervar": '(setv (get R "in") (get (lfor x [4] :do (setv hyv-q 0) (setx x 5)) 0))',
     "lfor": '(setv (get R "in") (get (lfor x [5] x) 0))',
     "sfor": '(setv (get R "in") (.pop (sfor x [5] x)))',
     "gfor": '(setv (get R "in") (next (gfor x [5] x)))',
@@ -793,7 +806,7 @@ def shadow_family(run):
                 run.work, workers=8, label="shadow")
     if r.violated:
         raise MachineryError(f"HyShadow: {r.violated} violated on the specification")
-    run.add_tlc(r, "HyShadow: 34 constructs that bind a let-bound name x 2 levels x 6 surrounding forms; the reads inside, "
+    run.add_tlc(r, "HyShadow: 42 constructs that bind a let-bound name x 2 levels x 6 surrounding forms; the reads inside, "
                    "after the construct and after the let")
     rows = r.ex("CASE")
     if {x["b"] for x in rows} != set(SHADOW_BINDERS):
